@@ -122,3 +122,20 @@ void h_EVectEval(void)
   VC_CHECK("eigen-decomposition returns n values and an n x n vector table", val->size == VC_M && ev->row == VC_M && ev->col == VC_M);
   VC_REACH();
 }
+
+/* Gauss-Jordan inverse: a non-singular matrix whose leading entry is zero needs a row exchange.  2x2 instance
+ * [[0,b],[c,d]] with b, c in [1,2] (determinant -b*c, condition number small): every cell of the inverse must be finite. */
+void h_MatrixInversion_pivot(void)
+{
+  matrix *m, *inv;
+  NewMatrix(&m, 2, 2); initMatrix(&inv);
+  double b = VC_IN_DBL(), c = VC_IN_DBL(), d = VC_IN_DBL();
+  VC_ASSUME(b >= 1.0 && b <= 2.0 && c >= 1.0 && c <= 2.0 && d >= -1.0 && d <= 1.0);
+  m->data[0][0] = 0.0; m->data[0][1] = b; m->data[1][0] = c; m->data[1][1] = d;
+  MatrixInversion(m, inv);
+  VC_CHECK("inverse has the input's shape", inv->row == 2 && inv->col == 2);
+  for(size_t i = 0; i < 2; i++)
+    for(size_t j = 0; j < 2; j++)
+      VC_CHECK("inverse of a well-conditioned matrix with a zero leading entry is finite (pivoting required)", inv->data[i][j] == inv->data[i][j] && inv->data[i][j] - inv->data[i][j] == 0.0);
+  VC_REACH();
+}
